@@ -1,6 +1,9 @@
 package main
 
-import "os"
+import (
+	"os"
+	"strings"
+)
 
 func init() {
 	scenarios["cdp"] = &Scenario{
@@ -8,12 +11,12 @@ func init() {
 		Setup: func(w *World) { setupCdp(w); w.warmOracle() },
 		Gens: func(w *World) []OpGen {
 			cfgTriggerBoost = w.Cfg.K("trigger_boost")
-			return append(append(cdpGens(), liqGens()...), auxGens()...)
+			return append(append(append(cdpGens(), liqGens()...), auxGens()...), extRewardGens()...)
 		},
 		PBlock: 220,
 	}
 
-	cdpGensAll := func(w *World) []OpGen { return append(append(cdpGens(), liqGens()...), auxGens()...) }
+	cdpGensAll := func(w *World) []OpGen { return append(append(append(cdpGens(), liqGens()...), auxGens()...), extRewardGens()...) }
 	scenarios["cdp+export"] = &Scenario{
 		Name: "cdp+export", NActors: cdpActors, Draw: drawCdpConfig,
 		Setup: func(w *World) { setupCdp(w); w.warmOracle() },
@@ -180,6 +183,12 @@ func registerDerived() {
 		Quick:      Budget{Runs: 150, MaxEvents: 160},
 		Thorough:   Budget{Runs: 2400, MaxEvents: 400},
 		Essential:  []string{"c12.non_owner_attempt"},
+		TweakCfg: func(r *Rng, cfg *Config) {
+			// the cdp app gets a governance token in most runs, so that the minting / burning contract messages are acceptable
+			if strings.HasPrefix(cfg.Scenario, "cdp") && r.Chance(3, 4) {
+				cfg.Knobs["esm"] = 1
+			}
+		},
 		BatchProbe: []string{"c12.non_owner_attempt", "c12.killswitch_attempt", "c12.killswitch_by_admin_accepted", "c12.contract_message_from_stranger", "c12.contract_message_from_designated_accepted"},
 		Rule: "one case = one seeded simulated run (cdp, lend or dex workload) in which, interleaved with the normal traffic, non-owner actors send every message type that names someone else's position (vault withdraw/draw/close/deposit-and-draw, locker withdraw/close, lend withdraw/close and borrowing against a foreign lend position, borrow draw/close/repay-withdraw/deposit-borrow, order cancel), random actors send MsgKillSwitch, and all 20 custom contract message variants are dispatched through the real CustomMessenger from designated contracts of this and of the other network and from strangers, under chain ids comdex-1, comdex-test3 and sim-1; oracle: non-owner / non-admin / stranger attempts must fail and leave every store except the signer's sequence byte-identical; distinct = distinct digest of the event stream; non-trivial = at least one non-owner attempt was evaluated",
 		Assume: []string{"a transaction signed by one key but carrying another address in its From field is rejected by signature verification (real ante handler runs); attempts are therefore made under the attacker's own address naming the victim's position id", "deposit and repay by a non-owner are not attempted: they do not move, reduce or close the position", "farm positions and limit bids are keyed by the signer's address and cannot name another party", "on chain ids other than comdex-1 / comdex-test3 only the kill switch admin list is checked (the contract guards are network specific by their own text)"},
